@@ -29,7 +29,7 @@ var (
 )
 
 func init() {
-	register(&CheckDef{Name: "lang", Props: []string{"C01", "C02"}, Run: runLangCheck, Replay: replayLang})
+	register(&CheckDef{Name: "lang", Props: []string{"C01", "C02", "C15"}, Run: runLangCheck, Replay: replayLang})
 }
 
 type langTier struct {
@@ -255,6 +255,38 @@ func judgeLang(c *Ctx, d *ref.Decl, spec string, node *ref.Node, argv []string, 
 			}
 		}
 	}
+	// ---- C15 (second stage): SetByUser of every container is true iff a command-line token was bound to it
+	if c.On("C15") && obs.Accepted && v.Accept && !v.Unclaimed {
+		c.Count("C15:evaluations", 1)
+		any := false
+		ok := false
+		var wants []string
+		for _, b := range v.Binds {
+			m := parseBindText(b)
+			match := true
+			for i := 0; i < d.NC(); i++ {
+				want := len(m[d.ContainerName(i)]) > 0
+				if want {
+					any = true
+				}
+				if obs.SetByUser[i] != want {
+					match = false
+				}
+			}
+			if match {
+				ok = true
+			}
+			wants = append(wants, b)
+		}
+		if any {
+			c.Count("C15:nontrivial", 1)
+		}
+		if !ok {
+			c.Violation("C15", key, mkCase(), "SetByUser true exactly for the containers bound in one derivation: "+strings.Join(wants, " / "), fmt.Sprintf("SetByUser=%v (containers %v)", obs.SetByUser, containerNames(d)))
+		} else if any && len(argv) >= 2 && c.WantSample("C15:lang") {
+			c.Sample("C15:lang", Case{"spec": spec, "argv": argv, "containers": containerNames(d), "SetByUser": obs.SetByUser})
+		}
+	}
 	if c.WantSample("C01:" + tier) && nontrivial && len(argv) >= 2 {
 		c.Sample("C01:"+tier, Case{"spec": spec, "argv": argv, "ref_accepts": v.Accept, "ref_unclaimed": v.Unclaimed, "impl_accepted": obs.Accepted, "bound": ref.BindTextOf(d, obs.Lists)})
 	}
@@ -347,4 +379,12 @@ func TestVerifReplay(t *testing.T) {
 	t.Logf("ran=%%v err=%%v a=%%v b=%%v o=%%q X=%%q Y=%%q", ran, err, *a, *b, *o, *x, *y)
 }
 `, spec, append([]string{"app"}, argv...))
+}
+
+func containerNames(d *ref.Decl) []string {
+	var n []string
+	for i := 0; i < d.NC(); i++ {
+		n = append(n, d.ContainerName(i))
+	}
+	return n
 }
